@@ -210,10 +210,9 @@ Ltac eqs :=
   | |- context [?a =? ?b] => destruct (Nat.eqb_spec a b)
   | H : context [?a =? ?b] |- _ => destruct (Nat.eqb_spec a b)
   end.
-Ltac spec_upd Htot HW :=
+Ltac spec_upd Htot :=
   try match goal with |- context [upd _ ?w _] =>
-    let Hw := fresh "Hw" in let HWw := fresh "HWw" in
-    pose proof (Htot w) as Hw; pose proof (HW w) as HWw end.
+    let Hw := fresh "Hw" in pose proof (Htot w) as Hw end.
 
 Lemma step_total t s s' evs :
   top_ok s -> Forall (th_ok (nxt s)) (thr s) -> step t s = Some (s', evs) ->
@@ -226,16 +225,19 @@ Proof.
   all: lk; eqs; try lia.
 Qed.
 
-Lemma step_inv W0 t s s' evs :
-  (forall w, cnt w W0 <= 1) -> Inv W0 s -> step t s = Some (s', evs) -> Inv W0 s'.
+(* the link part of the invariant needs only "every waiter id in at most one class" *)
+Definition Inv1 (s : st) : Prop :=
+  top_ok s /\ Forall (th_ok (nxt s)) (thr s) /\ forall w, total w s <= 1.
+
+Lemma step_inv1 t s s' evs : Inv1 s -> step t s = Some (s', evs) -> Inv1 s'.
 Proof.
-  intros HW (Htop & Hth & Htot) H.
-  assert (Htot' : forall w, total w s' = cnt w W0).
-  { intros w. rewrite <- Htot. eapply step_total; eauto. }
+  intros (Htop & Hth & Htot) H.
+  assert (Htot' : forall w, total w s' <= 1).
+  { intros w. erewrite step_total; eauto. }
   split; [|split; [|exact Htot']]; clear Htot'.
   - step_cases H.
     all: rewrite Forall_mid in *; destruct Hth as (Hl1 & Hme & Hl2).
-    all: spec_upd Htot HW; clear Htot.
+    all: spec_upd Htot; clear Htot.
     all: try (destruct tp; [| |]).
     all: norm.
     all: lk; auto.
@@ -243,7 +245,7 @@ Proof.
     all: cbn [linked]; auto; try congruence.
   - step_cases H.
     all: rewrite Forall_mid in *; destruct Hth as (Hl1 & Hme & Hl2).
-    all: spec_upd Htot HW; clear Htot.
+    all: spec_upd Htot; clear Htot.
     all: norm.
     all: lk.
     all: apply Forall_mid; split; [|split].
@@ -252,6 +254,20 @@ Proof.
     all: unfold th_ok; cbn [tpc linked]; auto.
     all: try (unfold upd; rewrite Nat.eqb_refl).
     all: repeat split; auto; try congruence.
+Qed.
+
+Lemma Inv_Inv1 W0 s : (forall w, cnt w W0 <= 1) -> Inv W0 s -> Inv1 s.
+Proof.
+  intros HW (Htop & Hth & Htot). repeat split; auto. intros w. rewrite Htot. apply HW.
+Qed.
+
+Lemma step_inv W0 t s s' evs :
+  (forall w, cnt w W0 <= 1) -> Inv W0 s -> step t s = Some (s', evs) -> Inv W0 s'.
+Proof.
+  intros HW HI H. pose proof (Inv_Inv1 _ _ HW HI) as HI1.
+  destruct (step_inv1 _ _ _ _ HI1 H) as (Htop' & Hth' & _).
+  destruct HI as (Htop & Hth & Htot).
+  repeat split; auto. intros w. rewrite <- Htot. eapply step_total; eauto.
 Qed.
 
 (* ------------------------------------------------------------------------------------------ *)
@@ -339,12 +355,12 @@ Lemma step_resumes t s s' evs :
   step t s = Some (s', evs) -> resumed s' = rev (resumes evs) ++ resumed s.
 Proof. intros H. step_cases H. all: reflexivity. Qed.
 
-Lemma step_wrel W0 w x t s s' evs :
-  (forall w, cnt w W0 <= 1) -> Inv W0 s -> wrel w s x -> step t s = Some (s', evs) ->
+Lemma step_wrel1 w x t s s' evs :
+  Inv1 s -> wrel w s x -> step t s = Some (s', evs) ->
   wrel w s' (fold_left (wst_upd w) evs x).
 Proof.
-  intros HW (Htop & Hth & Htot) Hx H.
-  pose proof (Htot w) as Hw. pose proof (HW w) as HWw. clear Htot HW.
+  intros (Htop & Hth & Htot) Hx H.
+  pose proof (Htot w) as Hw. clear Htot.
   step_cases H.
   all: rewrite Forall_mid in *; destruct Hth as (Hl1 & Hme & Hl2).
   all: cbn [fold_left wst_upd is_sig].
@@ -353,6 +369,11 @@ Proof.
   all: norm.
   all: lk; eqs; try lia.
 Qed.
+
+Lemma step_wrel W0 w x t s s' evs :
+  (forall w, cnt w W0 <= 1) -> Inv W0 s -> wrel w s x -> step t s = Some (s', evs) ->
+  wrel w s' (fold_left (wst_upd w) evs x).
+Proof. intros HW HI. apply step_wrel1. eapply Inv_Inv1; eauto. Qed.
 
 (* ------------------------------------------------------------------------------------------ *)
 (* Part 3: lifting to all schedules                                                           *)
